@@ -1111,3 +1111,116 @@ def quantity_split(ctx, rule, templates=None):
                       'the reader\'s number token also matches <written number> + <start of a unit>: the boundary between number and '
                       'unit is lost', file=FP, line=parts[0].lineno, engine='E3')
     _ = runit
+
+
+def time_literal_exact(ctx, rule, modname, fname='_parse_time'):
+    """The parse action of a time literal: hh:mm:ss[.fraction] denotes exactly that time.  Either strptime with %f on
+    the text cut to six fraction digits, or datetime.time(h, m, s, usec) where usec is the first six fraction digits,
+    ZERO-PADDED AS TEXT, then int().  float()/round()/math on the fraction loses a microsecond for ~1% of values;
+    int() of the un-padded digits reads `.5` as 5 microseconds."""
+    m = ctx.model
+    F_ = 'hszinc/%s.py' % modname
+    try:
+        fn = m.func(modname, fname)
+    except AnalysisError as e:
+        ctx.error(rule, str(e))
+        return
+    con = '%s::%s' % (F_, fname)
+    for c in ast.walk(fn):
+        if isinstance(c, ast.Call) and (norm(c.func) in ('float', 'round', 'Decimal', 'decimal.Decimal') or norm(c.func).startswith('math.')):
+            ctx.violation(rule, con, norm(c)[:100],
+                          'the well-formed time 08:12:05.000249 is read as 08:12:05.000248: the fraction goes through binary floating '
+                          'point (`%s`) and is truncated, which loses one microsecond for about 1%% of all microsecond values'
+                          % norm(c)[:40],
+                          'the fraction of a time literal is converted through float arithmetic instead of int() on its digits',
+                          file=F_, line=c.lineno, engine='E7')
+            return
+    sp = [c for c in ast.walk(fn) if isinstance(c, ast.Call) and norm(c.func).endswith('strptime')]
+    ctor = [c for c in ast.walk(fn) if isinstance(c, ast.Call) and norm(c.func) in ('datetime.time', 'time')]
+    where = '%s:%d' % (F_, fn.lineno)
+    if sp and not ctor:
+        cuts = [int(norm(s_.slice.upper)) for s_ in ast.walk(fn) if isinstance(s_, ast.Subscript) and isinstance(s_.slice, ast.Slice)
+                and s_.slice.lower is None and s_.slice.upper is not None and norm(s_.slice.upper).isdigit()]
+        fmts = ' '.join(x.value for x in ast.walk(fn) if isinstance(x, ast.Constant) and isinstance(x.value, str))
+        if '%f' in fmts and cuts == [6]:
+            ctx.ob(rule, '%s.%s: strptime with %%f on the text cut to six fraction digits' % (modname, fname), True, where)
+        elif '%f' in fmts and cuts and cuts[0] != 6:
+            ctx.violation(rule, con, 'fraction cut to %d digits' % cuts[0],
+                          'the well-formed time 08:12:05.1234567: %%f takes at most six digits and the text is cut to %d -- %s'
+                          % (cuts[0], 'strptime raises ValueError' if cuts[0] > 6 else 'digits of the microsecond are dropped'),
+                          'the fraction of a time literal is cut to %d digits, %%f needs exactly the first six' % cuts[0], file=F_,
+                          line=fn.lineno, engine='E7')
+        else:
+            ctx.error(rule, '%s.%s: strptime form not recognised (formats %r, cuts %s); cannot decide' % (modname, fname, fmts[:40], cuts))
+        return
+    if len(ctor) != 1:
+        ctx.error(rule, '%s.%s: %d datetime.time(...) calls; cannot decide' % (modname, fname, len(ctor)))
+        return
+    call = ctor[0]
+    usec = call.args[3] if len(call.args) >= 4 else next((k.value for k in call.keywords if k.arg == 'microsecond'), None)
+    if usec is None:
+        ctx.violation(rule, con, norm(call), 'the fraction of 08:12:05.5 is dropped', 'datetime.time(...) is built without microseconds',
+                      file=F_, line=call.lineno, engine='E7')
+        return
+    exprs = [usec]
+    if isinstance(usec, ast.Name):
+        exprs = [d.value for d in ast.walk(fn) if isinstance(d, ast.Assign) and len(d.targets) == 1 and norm(d.targets[0]) == usec.id]
+    from ._json import USEC_OK
+    import re as _re
+    for e in exprs:
+        # `X if frac else 0` / `X or 0`: judge X
+        while isinstance(e, ast.IfExp):
+            e = e.body
+        if isinstance(e, ast.Constant) and e.value == 0:
+            continue
+        t = norm(e)
+        names = sorted({x.id for x in ast.walk(e) if isinstance(x, ast.Name) and x.id not in ('int', 'len', 'str')})
+        if any(t == form.format(f=nm) for nm in names for form in USEC_OK):
+            ctx.ob(rule, '%s.%s: microseconds = first six fraction digits, zero-padded as text, then int()' % (modname, fname), True, where)
+            continue
+        if any(_re.match(r'^int\(%s(\[:\d+\])?( or 0| or \'0\')?\)$' % _re.escape(nm), t) for nm in names):
+            ctx.violation(rule, con, t,
+                          'the well-formed time 12:00:00.5 is read as 12:00:00.000005: the fraction digits are taken as a COUNT of '
+                          'microseconds (`%s`) instead of being padded to six digits first -- every literal with one to five '
+                          'fraction digits denotes the wrong time' % t,
+                          'the fraction of a time literal is converted with int() without zero-padding it to six digits', file=F_,
+                          line=getattr(e, 'lineno', fn.lineno), engine='E7')
+            continue
+        ctx.error(rule, '%s.%s: microsecond expression `%s` not tabled; cannot decide' % (modname, fname, t[:70]))
+
+
+def number_text_edits(ctx, rule, modname):
+    """str(float) may be in exponent form ('2.5e+20', '1.5e-10').  Trimming zeros / dots from the END of such a text
+    (`rstrip('0')`) eats the zeros of the exponent: the text then denotes another number.  A strip-family call with a
+    digit in its set, applied to the text of a number in a writer, needs a guard that excludes the exponent form."""
+    from .c17 import _guards
+    m = ctx.model
+    F_ = 'hszinc/%s.py' % modname
+    n = 0
+    for fname in ('dump_decimal', 'dump_quantity', 'dump_coord'):
+        try:
+            fn = m.func(modname, fname, 'nested')
+        except AnalysisError:
+            continue
+        for c in ast.walk(fn):
+            if isinstance(c, ast.Call) and isinstance(c.func, ast.Attribute) and c.func.attr in ('rstrip', 'strip') and c.args \
+                    and isinstance(c.args[0], ast.Constant) and isinstance(c.args[0].value, str) \
+                    and any(ch.isdigit() for ch in c.args[0].value):
+                n += 1
+                st = c
+                while not isinstance(st, ast.stmt):
+                    st = st._parent
+                gs = [(norm(t), pol) for t, pol in _guards(fn, st)]
+                excl = any((("'e' not in" in t or "'E' not in" in t) and pol) or (("'e' in" in t or "'E' in" in t) and not pol)
+                           for t, pol in gs)
+                if excl:
+                    ctx.ob(rule, '%s.%s: zeros are trimmed only from texts without an exponent' % (modname, fname), True,
+                           '%s:%d' % (F_, c.lineno))
+                else:
+                    ctx.violation(rule, '%s::%s' % (F_, fname), norm(st),
+                                  'dump of the number 2.5e+20 (str() gives "2.5e+20"): `%s` trims the zero of the EXPONENT, the '
+                                  'document says 2.5e+2 = 250; parsing the dump gives another grid, and a second pass turns it into '
+                                  '250 -- 1.5e-10 becomes 0.15, 1.5e+300 becomes 1500' % norm(c)[:40],
+                                  'the text of a number is trimmed with %s(%r) without excluding the exponent form'
+                                  % (c.func.attr, c.args[0].value), file=F_, line=c.lineno, engine='E5')
+    ctx.count('strip-family edits of number texts (%s)' % modname, n)
